@@ -182,8 +182,25 @@ def source_columns(rep, prog, rule):
                                 lf.add(i)
                             if r_op(o):
                                 rf.add(i)
-            lt2, l2 = _taint(prog, g, set(), lf)
-            rt2, r2 = _taint(prog, g, set(), rf)
+            # the items the closure receives: tainted when the iterator it is applied to is
+            # (`zip(x_in_tab.iter()).for_each(|(out_pixel, &x_in)| ..)`)
+            lparams, rparams = set(), set()
+            clos_locals = set()
+            for blk in f.blocks:
+                for st in blk["s"]:
+                    if st[0] == "a" and st[2][0] == "agg" and st[2][1] == "closure" and st[2][2] == g.id:
+                        clos_locals.add(st[1][0])
+            for c in f.calls():
+                idx = [i for i, a in enumerate(c.args) if a[0] in ("c", "m") and a[1] and a[1][0] in clos_locals]
+                if not idx:
+                    continue
+                others = [a for i, a in enumerate(c.args) if i not in idx]
+                if any(l_op(a) for a in others):
+                    lparams |= set(range(2, g.arg_count + 1))
+                if any(r_op(a) for a in others):
+                    rparams |= set(range(2, g.arg_count + 1))
+            lt2, l2 = _taint(prog, g, lparams, lf)
+            rt2, r2 = _taint(prog, g, rparams, rf)
             # a closure that receives the row as its parameter: `.map(move |row| row.get_unchecked(a..b))`
             if not rf and g.arg_count >= 2:
                 rt2, r2 = _taint(prog, g, {2})
